@@ -134,7 +134,43 @@ func checkNonceLayout(p *Program, r *Result) {
 			zero, _ = constInt(cmp.Y)
 		}
 		if !isCmp || cmp.Op != token.GEQ || cmp.X != ssa.Value(phi) || zero != 0 {
-			ok, detail = false, "loop bound is not i >= 0 (all counter bytes must be reachable)"
+			// or: no header test at all, and after the byte at i was incremented a test i == 0
+			// whose true side never returns (`for i := n-2; ; i-- { c[i]++; ..; if i == 0 { panic } }`)
+			alt := false
+			if !isCmp || (cmp.X != ssa.Value(phi) && cmp.Y != ssa.Value(phi)) {
+				for _, b := range inc.Blocks {
+					bi, isBi := b.Instrs[len(b.Instrs)-1].(*ssa.If)
+					if !isBi {
+						continue
+					}
+					c2, isC2 := bi.Cond.(*ssa.BinOp)
+					if !isC2 || c2.Op != token.EQL || c2.X != ssa.Value(phi) {
+						continue
+					}
+					if k, isK := constInt(c2.Y); !isK || k != 0 {
+						continue
+					}
+					if !dominatesInstr(stores[0], bi) {
+						continue
+					}
+					vis := p.Reach([]Loc{blockStart(b.Succs[0])}, nil)
+					sawReturn, sawStore := false, false
+					for in := range vis {
+						if _, isR := in.(*ssa.Return); isR {
+							sawReturn = true
+						}
+						if in == ssa.Instruction(stores[0]) {
+							sawStore = true
+						}
+					}
+					if !sawReturn && !sawStore {
+						alt = true
+					}
+				}
+			}
+			if !alt {
+				ok, detail = false, "loop bound is not i >= 0 (all counter bytes must be reachable)"
+			}
 		}
 	}
 	if ok {
